@@ -61,12 +61,27 @@
       with [conformsb] on every observed example (tag [corr_conforms_agree]); [prop_conforms]
       still evaluates [conformsb] on every observed example.
 
+      UPDATE 3: the passage through [emit_module] + [parse_module] IS NOW PROVED (end of this file,
+      Proofs/ConformsTokens.v, Proofs/ConformsCase.v): inside the decidable scope [reader_scopeb]
+      the relation on the IR implies acceptance by the independent reader [conformsb] run on
+      [parse_module] of the model's emission and on the model's resolved paths
+      ([C14_conformsb_of_ir]); every Ok example of the model is accepted ([C14_conforms_tokens]);
+      on a case whose observed module / paths / examples equal the model's, [prop_conforms] holds
+      ([C14_prop_conforms_of_corr]).  The scope is necessary ([C14_reader_scope_clauses_needed]):
+      the reader is stricter than the relation e.g. on [Cow<Cow<T>>] (fuel) and on a field called
+      [__ignore].  The converse (reader accepts => relation) is not proved; on the F15 witness both
+      refuse ([C14_F15_refused_by_reader]).
+
     Determinism: [example_rust] is a Gallina function of (r, s, id, ws). *)
 From Coq Require Import List NArith ZArith String.
 From V Require Import Base.Result Model.Registry Model.Settings Model.RngWords Model.Generate Model.Equal
   Model.Shape Model.ExampleRust Model.Conforms
   Model.WellFormed Proofs.ExampleRustProofs Proofs.ExampleRustTotal Proofs.ConformsProofs
   Proofs.ConformsExamples.
+(* [Require] without [Import]: the names of the pinned statements above keep their meaning; the
+   statements added at the end of this file use qualified names *)
+From V Require Model.Emit Checkers.Parse Model.Unparse Corr.RunTG Corr.RunC14
+  Proofs.ConformsTokens Proofs.ConformsTokensExamples Proofs.ConformsCase.
 Import ListNotations.
 
 Theorem C14_total_partial :
@@ -284,3 +299,164 @@ Theorem C14_conforms_unique_paths :
       example_rust r s id ws = XOk ts -> conforms r s m id ts [].
 Proof. exact example_conforms_unique. Qed.
 Print Assumptions C14_conforms_unique_paths.
+
+(** ** C14_conforms, token level: the relation on the IR agrees with the INDEPENDENT reader.
+
+    [Corr.RunC14.conformsb r root pm paths id ts] is the token-level reader the harness runs on every
+    observed example ([prop_conforms]): it walks [ts] in lockstep with the registry [r], the PARSED
+    module [pm : option pmod] and the resolved paths [paths]; it shares no code with the model.
+    Here it is instantiated with the model's own outputs: [pm] = [Checkers.Parse.parse_module] of the
+    tokens [Model.Emit.emit_module] prints for the generated items (by [C02_emit_parses] this is
+    [Some (pmod_of_items s m)]), [paths] = [model_paths r s] = the model's [resolve_type_path] +
+    printing of every id by position (what [Corr.RunTG.corr_paths] compares with the observed paths).
+
+    [reader_scopeb r s m] (Proofs/ConformsTokens.v, decidable; EVERY clause is necessary, see the
+    witnesses [C14_reader_scope_clauses_needed]): the reader is stricter than the relation in corners
+    that the relation leaves open --
+    - the root ident is lexically an identifier;
+    - [Cow] directly inside [Cow] (through compact wrappers) does not occur: the reader's fuel is the
+      number of tokens + 1 and a [Cow] level consumes fuel without consuming a token;
+    - an enum is not called [Cow] (the resolver would collapse it to its parameter);
+    - the variant names of an enum are pairwise distinct (both sides take the FIRST variant of a name;
+      the relation lets any be chosen);
+    - the literal path of an entry without a generated item (prelude / substituted) is non-empty, does
+      not start with the tokens []] / [None], and does not name something under the root module;
+    - a path printed as the bare [Option] belongs to an entry whose registry path is [Option] (the
+      reader accepts [None] only there);
+    - no named field of a generated item is called [__ignore] and no positional field has a type whose
+      last segment is [PhantomData] (the reader recognises the marker slot by these).
+    Token condition: [~ In empty_str_lit ts] -- the relation allows the string literal [""] (all of
+    its zero characters are alphanumeric), the reader's [quoted] wants a character between the quotes. *)
+Theorem C14_conformsb_of_ir :
+  forall (r : registry) (s : settings) (teq : N -> N -> result bool) (m : items) (toks : tokens),
+    generate r s teq = Ok m -> skeleton_consistent r s ->
+    ConformsTokens.reader_scopeb r s m = true ->
+    Unparse.items_plain s m = true -> Emit.emit_module s m = Ok toks ->
+    forall (id : N) (ts : tokens),
+      conforms r s m id ts [] -> ~ In ConformsTokens.empty_str_lit ts ->
+      RunC14.conformsb r (s_root s) (Parse.parse_module toks) (ConformsTokens.model_paths r s) id ts = true.
+Proof. exact ConformsTokens.conformsb_of_ir. Qed.
+Print Assumptions C14_conformsb_of_ir.
+
+(** the same for the reader's fuelled core [conf], for every remainder [rest] that does not open a
+    group and every fuel above the number of tokens read, on the tree [pmod_of_items s m] *)
+Theorem C14_conf_of_ir :
+  forall (r : registry) (s : settings) (teq : N -> N -> result bool) (m : items),
+    generate r s teq = Ok m -> skeleton_consistent r s ->
+    ConformsTokens.reader_scopeb r s m = true ->
+    forall (id : N) (ts rest : tokens),
+      conforms r s m id ts rest -> Unparse.hd_is "(" rest = false ->
+      ~ In ConformsTokens.empty_str_lit ts ->
+      forall fuel : nat, (List.length ts + 1 <= fuel + List.length rest)%nat ->
+      RunC14.conf r (s_root s) (Some (Unparse.pmod_of_items s m)) (ConformsTokens.model_paths r s) fuel id ts
+      = Some rest.
+Proof. exact ConformsTokens.conf_of_conforms. Qed.
+Print Assumptions C14_conf_of_ir.
+
+(** the model never prints the empty string literal, provided no literal path contains that token
+    ([literal_paths_plainb r s]: for every position [i], [path_omit_generics r s i = Ok p] implies
+    [""] is not among [p]; path tokens are identifiers and punctuation in practice) *)
+Theorem C14_example_no_empty_literal :
+  forall (r : registry) (s : settings),
+    ConformsTokens.literal_paths_plainb r s = true ->
+    forall (id : N) (ws : words) (ts : tokens),
+      example_rust r s id ws = XOk ts -> ~ In ConformsTokens.empty_str_lit ts.
+Proof. exact ConformsTokens.example_no_empty_lit. Qed.
+Print Assumptions C14_example_no_empty_literal.
+
+(** ** C14_conforms_tokens: every Ok example of the model is accepted by the token-level reader run on
+    the parse of the model's own emission and on the model's resolved paths
+    ([C14_conforms] + [C14_conformsb_of_ir] + [C02_emit_parses] + [C14_example_no_empty_literal]).
+    With the run-time [corr_example] (observed example tokens = model tokens), [corr_gen] (observed
+    module tokens = model tokens) and [corr_paths] (observed paths = model paths) this makes the
+    verdict of [prop_conforms] on a case inside the scope a consequence of theorems about the model.
+    Quantifier: every registry, settings, [types_equal] oracle, id, word list such that the module
+    is generated, same-path entries have equal skeletons (excludes F15), the reader scope and
+    [literal_paths_plainb] hold, the items are plain (scope of [C02_emit_parses]) and emission succeeds. *)
+Theorem C14_conforms_tokens :
+  forall (r : registry) (s : settings) (teq : N -> N -> result bool) (m : items) (toks : tokens),
+    generate r s teq = Ok m -> skeleton_consistent r s ->
+    ConformsTokens.reader_scopeb r s m = true ->
+    ConformsTokens.literal_paths_plainb r s = true ->
+    Unparse.items_plain s m = true -> Emit.emit_module s m = Ok toks ->
+    forall (id : N) (ws : words) (ts : tokens),
+      example_rust r s id ws = XOk ts ->
+      RunC14.conformsb r (s_root s) (Parse.parse_module toks) (ConformsTokens.model_paths r s) id ts = true.
+Proof. exact ConformsTokens.conforms_tokens_full. Qed.
+Print Assumptions C14_conforms_tokens.
+
+(** non-vacuity: all hypotheses hold on the registry of Proofs/ConformsExamples.v (unit struct and
+    named struct with an unused parameter, enum, 1-tuple, arrays, Compact field, sequence, prelude
+    [Option]); Proofs/ConformsTokensExamples.v also evaluates the reader on the parse of the emitted
+    tokens for all 14 examples ([cdemo_all_read]) and on corrupted examples ([cdemo_corrupted]) *)
+Theorem C14_conforms_tokens_nonvacuous :
+  exists (r : registry) (s : settings) (m : items) (toks : tokens) (id : N) (ws : words) (ts : tokens),
+    generate r s (types_equal r) = Ok m /\ skeleton_consistent r s /\
+    ConformsTokens.reader_scopeb r s m = true /\
+    ConformsTokens.literal_paths_plainb r s = true /\
+    Unparse.items_plain s m = true /\ Emit.emit_module s m = Ok toks /\
+    example_rust r s id ws = XOk ts /\ In "PhantomData"%string ts /\
+    RunC14.conformsb r (s_root s) (Parse.parse_module toks) (ConformsTokens.model_paths r s) id ts = true.
+Proof. exact ConformsTokensExamples.conforms_tokens_nonvacuous. Qed.
+Print Assumptions C14_conforms_tokens_nonvacuous.
+
+(** the clauses of the scope / the token condition cannot be dropped: (1) [Cow<Cow<u8>>] -- generated,
+    consistent, the model's example [5u8] is an instance, the reader refuses it (fuel); (2) a struct
+    field called [__ignore]; (3) the empty string literal inside the scope *)
+Theorem C14_reader_scope_clauses_needed :
+  (exists (r : registry) (s : settings) (m : items) (id : N) (ws : words) (ts : tokens),
+     generate r s (types_equal r) = Ok m /\ skeleton_consistentb r s = true /\
+     ConformsTokens.reader_scopeb r s m = false /\ example_rust r s id ws = XOk ts /\ conforms r s m id ts [] /\
+     RunC14.conformsb r (s_root s) (Some (Unparse.pmod_of_items s m)) (ConformsTokens.model_paths r s) id ts = false /\
+     ts = ["5u8"%string]) /\
+  (exists (r : registry) (s : settings) (m : items) (id : N) (ws : words) (ts : tokens),
+     generate r s (types_equal r) = Ok m /\ skeleton_consistentb r s = true /\
+     ConformsTokens.reader_scopeb r s m = false /\ example_rust r s id ws = XOk ts /\ conforms r s m id ts [] /\
+     RunC14.conformsb r (s_root s) (Some (Unparse.pmod_of_items s m)) (ConformsTokens.model_paths r s) id ts = false /\
+     In "__ignore"%string ts) /\
+  (exists (r : registry) (s : settings) (m : items) (id : N) (ts : tokens),
+     generate r s (types_equal r) = Ok m /\ ConformsTokens.reader_scopeb r s m = true /\
+     In ConformsTokens.empty_str_lit ts /\ conforms r s m id ts [] /\
+     RunC14.conformsb r (s_root s) (Some (Unparse.pmod_of_items s m)) (ConformsTokens.model_paths r s) id ts = false).
+Proof. exact ConformsTokensExamples.reader_scope_clauses_needed. Qed.
+Print Assumptions C14_reader_scope_clauses_needed.
+
+(** converse direction on the F15 witness: where [skeleton_consistent] fails, the model's example of
+    the second same-path entry is not an instance AND is refused by the token-level reader on the
+    parse of the model's emission (the reader scope holds on this registry) *)
+Theorem C14_F15_refused_by_reader :
+  exists (r : registry) (s : settings) (m : items) (toks : tokens) (id : N) (ws : words) (ts : tokens),
+    generate r s (types_equal r) = Ok m /\ skeleton_consistentb r s = false /\
+    ConformsTokens.reader_scopeb r s m = true /\ Emit.emit_module s m = Ok toks /\
+    example_rust r s id ws = XOk ts /\ ~ conforms r s m id ts [] /\
+    RunC14.conformsb r (s_root s) (Parse.parse_module toks) (ConformsTokens.model_paths r s) id ts = false.
+Proof. exact ConformsTokensExamples.f15_refused_by_reader. Qed.
+Print Assumptions C14_F15_refused_by_reader.
+
+(** ** [prop_conforms] on a case is a consequence of the correspondence booleans.
+    [RunC14.prop_conforms c] is the property checker of the harness: the token-level reader on the parse
+    of the OBSERVED module ([c_gen]), the OBSERVED paths ([c_paths]) and every OBSERVED Ok example.
+    If the observed module, paths and examples are the model's ([corr_module], [corr_model_paths]
+    -- Proofs/ConformsCase.v, the C14 analogues of [RunTG.corr_gen] / [RunTG.corr_paths] --, and
+    [RunC14.corr_example]) and the case is in the scope of [C14_conforms_tokens]
+    ([hyp_reader_scope c]: the model generates; [skeleton_consistentb], [reader_scopeb],
+    [literal_paths_plainb], [items_plain] hold), then [prop_conforms c = true]: a violation of
+    [prop_conforms] on such a case can only come with a failing [corr_*] tag (model and
+    implementation differ) -- the reader is no longer separately trusted there. *)
+Theorem C14_prop_conforms_of_corr :
+  forall c : RunC14.case,
+    ConformsCase.hyp_reader_scope c = true ->
+    ConformsCase.corr_module c = true -> ConformsCase.corr_model_paths c = true ->
+    RunC14.corr_example c = true ->
+    RunC14.prop_conforms c = true.
+Proof. exact ConformsCase.prop_conforms_of_corr. Qed.
+Print Assumptions C14_prop_conforms_of_corr.
+
+(** the hypotheses hold on a case (all 14 ids of the registry of Proofs/ConformsExamples.v) *)
+Theorem C14_prop_conforms_of_corr_nonvacuous :
+  exists c : RunC14.case,
+    ConformsCase.hyp_reader_scope c = true /\ ConformsCase.corr_module c = true /\
+    ConformsCase.corr_model_paths c = true /\ RunC14.corr_example c = true /\
+    RunC14.hyp_ok c = true /\ RunC14.hyp_marker c = true /\ RunC14.prop_conforms c = true.
+Proof. exists ConformsCase.demo_case. exact (proj2 ConformsCase.demo_case_in_scope). Qed.
+Print Assumptions C14_prop_conforms_of_corr_nonvacuous.
